@@ -44,18 +44,22 @@ class ExecutionPlanner:
         # 2. Link task dependencies.
         root = LoweringTask.initial(task_to_run)
         stack = [root]
-        visited: Dict[TaskIdentifier, LoweringTask] = {}
+        visited: Dict[TaskIdentifier, LoweringTask] = {task_to_run.identifier: root}
         while len(stack) > 0:
             lt = stack.pop()
 
+            if lt.state == LoweringState.DONE:
+                # This task is reachable through more than one dependency path
+                # and has already been lowered.
+                continue
+
             if lt.state == LoweringState.FIRST_VISIT:
                 # First visit to this task.
-                visited[lt.task.identifier] = lt
-
                 if not run_again and not lt.task.should_run(self._ctx, at_least_commit):
                     # This task does not need to be executed again, so we do not
                     # traverse further.
                     cached_tasks.append(lt.task)
+                    lt.state = LoweringState.DONE
                     continue
 
                 lt.state = LoweringState.SECOND_VISIT
@@ -65,16 +69,19 @@ class ExecutionPlanner:
                 # list. This ensures we process dependencies in the order they
                 # are listed in the COND file (for the user's convenience).
                 for dep_ident in reversed(lt.task.deps):
-                    if dep_ident in visited:
-                        # Add the dependency relationship, but do not traverse
-                        # its dependencies because we already visited.
-                        dep = visited[dep_ident]
-                        lt.deps.append(dep)
-                        continue
-
-                    dep = LoweringTask.initial(self._ctx.task_index.get_task(dep_ident))
+                    # Each task is lowered exactly once: all of its dependees
+                    # share the same `LoweringTask`.
+                    dep = visited.get(dep_ident)
+                    if dep is None:
+                        dep = LoweringTask.initial(
+                            self._ctx.task_index.get_task(dep_ident)
+                        )
+                        visited[dep_ident] = dep
                     lt.deps.append(dep)
-                    stack.append(dep)
+                    if dep.state == LoweringState.FIRST_VISIT:
+                        # Not lowered yet. (Re-)push it so that it is lowered
+                        # before this task's second visit.
+                        stack.append(dep)
 
             elif lt.state == LoweringState.SECOND_VISIT:
                 # These task types always produce at least one `Operation`.
@@ -167,6 +174,7 @@ class ExecutionPlanner:
                 # tasks and operations. But with remote execution, this will
                 # change.
                 num_tasks_to_run += 1
+                lt.state = LoweringState.DONE
 
         return ExecutionPlan(
             task_to_run=task_to_run,
